@@ -68,6 +68,17 @@ def step (line : String) : String :=
       let out := rows.map fun (pts, ρ) =>
         s!"{showOB (contains τ dc pts ρ)} {showM (margin τ false dc pts ρ)} {showOB (contains τ dσ pts ρ)} {showM (margin τ false dσ pts ρ)}"
       return if out.isEmpty then "-" else ";".intercalate out
+    | "uvol" => do
+      -- a user-set volume f under D(**σa)(**σb): value at the remaining rows vs f at the extended rows
+      let f ← parsePF rat
+      let σa ← parseEnv rat
+      let σb ← parseEnv rat
+      let rows ← many (parseEnv rat)
+      let u : UDom Rat := ⟨.interval "y" (.const [0]) (.const [1]), some f⟩
+      let e := (u.peval σa).peval σb
+      let out := rows.map fun ρ =>
+        s!"{showVals [match e.uvol with | some g => g.f ρ | none => []]} {showVals [f.f (ρ ++ (σb ++ σa))]} {showVars (match e.uvol with | some g => g.args | none => [])}"
+      return if out.isEmpty then "-" else ";".intercalate out
     | "peval2" => do
       -- repeated evaluation: D(**σ1)(**σ2) at (pts, ρ)  vs  D at (pts, ρ ∪ σ2 ∪ σ1)
       let atol ← rat; let rtol ← rat; let batol ← rat
